@@ -116,6 +116,9 @@ pub fn gen(rng: &mut Rng, tier: Tier, out: &mut Vec<String>) {
         let mut tris = vec![];
         let zslope = *rng.pick(&[0.5f32, 0.9, 1.0]);
         let zoff = *rng.pick(&[0.5f32, 1.2, 1.9]) * zslope;
+        // distant scenes: the whole homogeneous vector scaled by 1e4..1e8, so reciprocal depths (and
+        // their differences between surfaces) are far below f32::EPSILON while the image is the same
+        let far = if !painter && rng.chance(1, 4) { 10f32.powf(rng.f32_in(4.0, 8.0)) } else { 1.0 };
         for j in 0..ntris {
             for _ in 0..3 {
                 let mut p = if painter {
@@ -129,6 +132,9 @@ pub fn gen(rng: &mut Rng, tier: Tier, out: &mut Vec<String>) {
                 } else {
                     { let o = rng.chance(1, 2); gen_clip_vertex(rng, o).to_vec() }
                 };
+                for c in p.iter_mut() {
+                    *c *= far;
+                }
                 p.push(rng.f32_in(-10.0, 10.0));
                 verts.push(p);
             }
